@@ -107,6 +107,14 @@ def coinbaseCheck (cr dp : Fixed64 → Fixed64) (active h : Nat) (powMode : Bool
     (fees reward dposReward : Fixed64) (outs : List Out) : CbRes :=
   if isV2 active h then coinbaseV2Check cr dp powMode fees reward dposReward outs else .legacy
 
+/-- checkTxsContext around the coinbase check: when the check fails for a block below
+    `CheckRewardHeight`, `err` is overwritten by the (nil) result of `block.Serialize` — the failure
+    is logged and the block goes through.  From `CheckRewardHeight` on the error is returned. -/
+def blockVerdict (checkRewardHeight h : Nat) (res : CbRes) : CbRes :=
+  match res with
+  | .err e => if h < checkRewardHeight then .ok else .err e
+  | r => r
+
 /-- AssignCoinbaseTxRewards, DPoS-v2 branch, applied to the two-output coinbase of
     CreateCoinbaseTx (`[CR address, miner address]`). -/
 def assignV2 (cr dp : Fixed64 → Fixed64) (powMode : Bool) (total : Fixed64)
